@@ -163,6 +163,9 @@ func (x *runner) judge(sc *Scenario, idx int, obs *lifeObs, pre []string, nextH 
 		if sum[7] != "-" {
 			x.c.Hist["hypothesis:life_disc="+sum[7]]++
 		}
+		if len(sum) >= 9 && sum[8] != "-" {
+			x.c.Hist["hypothesis:restarted-life-plain(live_good)="+sum[8]]++
+		}
 	}
 	x.c.Hist["life:"+phase]++
 	x.c.Hist["trigger_sync_hidden"] += obs.TrigSync
